@@ -2,7 +2,7 @@
 use parity_scale_codec::{Compact, Decode, Encode};
 #[derive(Encode, Decode)]
 pub enum T {
-	#[codec(skip)] #[codec(index = 300)] V0,
+	#[codec(index = 300)] #[codec(skip)] V0,
 	#[codec(index = 300)] V1,
 	V2 = 2,
 }
